@@ -66,6 +66,17 @@ func resolveNAT(p *Prog) *natRoles {
 			if isCall(in, "builtin.delete") && isFieldLoad(in.(ssa.CallInstruction).Common().Args[0], natT, fOut) {
 				delOut = true
 			}
+			// the table handed to a lookup helper shared by both directions (findLiveMapping(n.outboundMap, key))
+			if cl, ok := in.(*ssa.Call); ok && helperCallee(cl) != nil {
+				for _, a := range cl.Call.Args {
+					if isFieldLoad(a, natT, fOut) {
+						lookOut = true
+					}
+					if isFieldLoad(a, natT, fIn) {
+						lookIn = true
+					}
+				}
+			}
 		})
 		res := f.Signature.Results()
 		prm := f.Signature.Params()
@@ -502,6 +513,29 @@ func natKeyUses(p *Prog) []keyUse {
 					if isFieldLoad(x.X, natT, m) {
 						add(m, "lookup", x.Index, in, f)
 					}
+					// a lookup helper shared by both tables: table[key] with both handed in by the callers
+					if tp, isP := x.X.(*ssa.Parameter); isP && tp.Parent() == f {
+						ti, ki := -1, -1
+						for i, q := range f.Params {
+							if q == tp {
+								ti = i
+							}
+							if ssa.Value(q) == x.Index {
+								ki = i
+							}
+						}
+						for _, e := range p.CG().In[f] {
+							ci, ok := e.Site.(ssa.CallInstruction)
+							if !ok || ti < 0 || ti >= len(ci.Common().Args) || !isFieldLoad(ci.Common().Args[ti], natT, m) {
+								continue
+							}
+							key := x.Index
+							if ki >= 0 && ki < len(ci.Common().Args) {
+								key = ci.Common().Args[ki]
+							}
+							add(m, "lookup", key, e.Site, e.From)
+						}
+					}
 				case *ssa.MapUpdate:
 					if isFieldLoad(x.Map, natT, m) {
 						add(m, "insert", x.Key, in, f)
@@ -934,41 +968,55 @@ func runC02(c *Ctx) {
 	// R4 expiry before reuse
 	o = c.Obl("R4", natT+".find", "a mapping is handed out by the lookup helpers only on the not-expired edge (now.After(expires) false); the expired edge removes it", 2)
 	for _, f := range []*ssa.Function{r.findOut, r.findIn} {
-		for _, ret := range findInstrs(f, isReturn) {
-			for _, leaf := range phiLeavesWithPred(ret.(*ssa.Return).Results[0]) {
-				if isNilConst(leaf.v) {
-					continue
-				}
-				blk := ret.Block()
-				if leaf.pred != nil {
-					blk = leaf.pred
-				}
-				notExpired := func(ft fact) bool {
-					return boolFact(ft, func(v ssa.Value) bool {
-						cl, ok := v.(*ssa.Call)
-						return ok && isExpiredTest(cl, mExp)
-					}, false)
-				}
-				notFound := func(ft fact) bool {
-					return boolFact(ft, func(v ssa.Value) bool {
-						ex, ok := v.(*ssa.Extract)
-						if !ok || ex.Index != 1 {
-							return false
-						}
-						_, isLk := origin(ex.Tuple).(*ssa.Lookup)
-						return isLk
-					}, false)
-				}
-				okE := false
-				for _, ft := range append(guardsOfBlock(blk), lastBranchFact(blk, ret.Block())...) {
-					if notExpired(ft) || notFound(ft) {
-						okE = true
+		// path by path (a lookup helper shared by both tables is followed with this caller's arguments)
+		fpaths, okFP := enumIterPathsU(f, 5000)
+		if !okFP {
+			o.Undecide("the paths of %s could not be enumerated", fname(f))
+		}
+		seenR4 := map[string]bool{}
+		for pi := range fpaths {
+			pt := &fpaths[pi]
+			ret, isRet := pt.last().(*ssa.Return)
+			if !isRet || pt.Loop || ret.Parent() != f || len(ret.Results) == 0 {
+				continue
+			}
+			rv := pt.value(retValAt(ret, 0)[0])
+			if isNilConst(rv) {
+				continue
+			}
+			okE := false
+			for _, ft := range pt.Conds {
+				at := len(pt.Instrs) - 1
+				if ft.If != nil {
+					if k := pt.indexOf(ft.If); k >= 0 {
+						at = k
 					}
 				}
-				o.Site(ret.Pos(), "%s returns %s (guarded: %v)", f.Name(), leaf.v.Name(), okE)
-				if !okE {
-					o.Fail(ret.Pos(), "%s can return a mapping without having found it not expired", fname(f))
+				if boolFact(ft, func(v ssa.Value) bool {
+					cl, ok := v.(*ssa.Call)
+					return ok && isExpiredTestP(cl, mExp, pt, at)
+				}, false) {
+					okE = true // found not expired
 				}
+				if boolFact(ft, func(v ssa.Value) bool {
+					ex, ok := v.(*ssa.Extract)
+					if !ok || ex.Index != 1 {
+						return false
+					}
+					_, isLk := origin(ex.Tuple).(*ssa.Lookup)
+					return isLk
+				}, false) {
+					okE = true // not found: the value handed back is the nil of a failed lookup
+				}
+			}
+			key := fmt.Sprintf("%s %v", rv.Name(), okE)
+			if !seenR4[key] {
+				seenR4[key] = true
+				o.Site(ret.Pos(), "%s returns %s (guarded: %v)", f.Name(), rv.Name(), okE)
+			}
+			if !okE && !seenR4["fail"] {
+				seenR4["fail"] = true
+				o.Fail(ret.Pos(), "%s can return a mapping without having found it not expired", fname(f))
 			}
 		}
 		// expired edge removes
@@ -1977,4 +2025,18 @@ func helperSuccessValues(v ssa.Value) []helperValue {
 		}
 	}
 	return out
+}
+
+// isExpiredTestP: isExpiredTest with the operands resolved along a path (the mapping may be a helper's parameter).
+func isExpiredTestP(cl *ssa.Call, mExp string, pt *upath, at int) bool {
+	if isExpiredTest(cl, mExp) {
+		return true
+	}
+	switch callName(cl) {
+	case "(time.Time).After":
+		return isFieldLoad(pt.valueAt(cl.Call.Args[1], at), mapT, mExp)
+	case "(time.Time).Before":
+		return isFieldLoad(pt.valueAt(cl.Call.Args[0], at), mapT, mExp)
+	}
+	return false
 }
